@@ -75,7 +75,8 @@ M = [
     ("C13-tail-offbyone", "C13", "cnvlib/access.py", "run_start = cursor + n_indices[-1] + 1", "run_start = cursor + n_indices[-1]"),
     ("C13-ok-starts", "C13", "cnvlib/access.py", "ok_starts = n_indices[:-1][gap_mask] + 1 + cursor", "ok_starts = n_indices[:-1][gap_mask] + cursor"),
     # ---- C14
-    ("C14-diff-noabs", "C14", "cnvlib/segfilters.py", "return levels.diff().fillna(0).abs().cumsum().astype(int)", "return levels.diff().fillna(0).cumsum().astype(int)"),
+    ("C14-diff-noabs", "C14", "cnvlib/segfilters.py", "return levels.diff().fillna(0).ne(0).cumsum()", "return levels.diff().fillna(0).cumsum().astype(int)"),
+    ("C14-truncated-steps", "C14", "cnvlib/segfilters.py", "return levels.diff().fillna(0).ne(0).cumsum()", "return levels.diff().fillna(0).abs().cumsum().astype(int)"),
     ("C14-probes-len", "C14", "cnvlib/segfilters.py", 'out["probes"] = cnarr["probes"].sum() if "probes" in cnarr else len(cnarr)', 'out["probes"] = len(cnarr)'),
     ("C14-no-chrom-key", "C14", "cnvlib/segfilters.py", "        change_levels += chrom_col\n", "        pass\n"),
     # ---- C15
